@@ -17,7 +17,10 @@ THOROUGH_RUNS = 450000
 QUICK_BUDGET = 100
 THOROUGH_BUDGET = 1500
 RULE = ('one run = one simulated hand (all structures, modes, blind/straddle/post/bring-in layouts, caps 1-4 and none, '
-        'stacks creating covered players, short all-ins and nobody-can-call situations, aggressive and mixed profiles). '
+        'stacks creating covered players, short all-ins and nobody-can-call situations, aggressive and mixed profiles; a '
+        'quarter of the runs are an all-in laboratory: 4+ players, stacks of 1-6 big blinds next to deep ones, short stacks '
+        'moving in and deep stacks calling or min-raising, so that full raises, all-ins that are exactly a minimum raise and '
+        'chains of short all-ins meet callers who keep chips). '
         'An independent betting-round model (ref/bet.py) is advanced from the operation log only; every logged betting '
         'operation must be one the model allows (turn, fold legality, call amount, bring-in, raise admissibility and '
         'interval), a round may end only when the model\'s queue is empty, and at every state with an actor the engine\'s '
@@ -173,12 +176,21 @@ class BetMonitor(Monitor):
                                 f'[{lo}, {hi}] {ctx}', rule='amount')
 
 
+LAB_BIAS = dict(variants=('NT', 'NT', 'PO', 'FT', 'NS', 'XHE'), custom_num=0, chips=('int', 'int', 'fraction'), min_players=4,
+                stack_pool=(2, 3, 3, 4, 4, 5, 5, 6, 7, 8, 9, 10, 12, 100, 100, 200, 200), stack_mult=1, bbs=(2,),
+                ante_kinds=('none', 'none', 'uniform'), plain_blinds=True, equal_num=0)
+
+
 def run(ch, ctx):
-    cfg = gen_config(ch, BIAS)
+    lab = ch.chance('c03.allin_lab', 1, 4)
+    cfg = gen_config(ch, LAB_BIAS if lab else BIAS)
+    if lab:
+        ctx.count('allin_lab_runs')
     mon = BetMonitor(unit_of(cfg))
     world = None
     try:
-        world = World(ch, ctx, cfg, [mon], run_key=run_key_of(ch), profile=ch.choice('c03.profile', PROFILE_POOL),
+        world = World(ch, ctx, cfg, [mon], run_key=run_key_of(ch),
+                      profile='allin_lab' if lab else ch.choice('c03.profile', PROFILE_POOL),
                       muck_num=0, partial_show=False)
         world.run()
     except (Violation, EngineCrash, Stuck):
